@@ -4,6 +4,8 @@ Every case is a real App.Run (harness/cmd/c18) with one tagged field, observed a
 stage, after binding and after validation.  expr-lang and go-playground/validator are oracles: the driver calls them
 directly (expression text after substitution; final field value + the constraints the generator wrote) and hands
 both tables to the model (Model/Pipeline.v) and to the property oracle (Corr/Check_C18.v).
+Stream `multipass` (and a share of the placeholders of the other expression streams): placeholders inside the expression that need
+more than one substitution pass - nested keys, configured values / defaults that contain placeholders (G.deep, G.dependent).
 Instantiated obligation: class / Order() of the real built-in processors, read on every run -> Facts_C18.v ->
 `staged facts = true` and `staged_classes facts = true` re-proved by vm_compute.
 """
@@ -51,14 +53,130 @@ def val_text(v):
     return str(v)
 
 
+# Multi-pass placeholders: text that el.ReplaceAllContent resolves only by scanning the string again after a substitution, because
+# a `${...}` becomes matchable through an earlier substitution.  Three forms, freely nested (G.deep):
+#   nested    ${limits.${tier}}      the key is built from another placeholder (the inner one is the leftmost match of \$\{[^{}]*\})
+#   indirect  ${q1} with q1: "${b}"  the CONFIGURED VALUE contains placeholders (one hop, two hops, ...; possibly with text around)
+#   default   ${nope:${b}}           the default contains a placeholder (key absent: the default is used; key present: it is not)
+# value groups addressed by nested keys: kind -> (group key, selector key, alternatives)
+GROUPS = {
+    "int": ("limits", "tier", {"silver": 3, "gold": 5, "basic": 0, "top": 100}),
+    "float": ("rate", "level", {"low": ("dec", 5, -1), "high": ("dec", 25, -1)}),
+    "bool": ("flag", "sw", {"up": True, "down": False}),
+    "str": ("greeting", "lang", {"en": "hello", "fr": "salut", "xx": "A1"}),
+}
+LIT_DEFAULT = {"int": ["1", "4", "10", "0"], "float": ["0.5", "2.5"], "bool": ["true", "false"], "str": ["zz", "q1"]}
+
+
 class G:
-    def __init__(self, rng, tree):
+    def __init__(self, rng, tree, p_deep=0.0):
         self.rng = rng
         self.tree = tree
+        self.p_deep = p_deep      # probability that a placeholder is a multi-pass one
+        self.extra = {}           # configuration entries the multi-pass placeholders need (merged into the tree by full_tree)
+        self.mphs = []            # the multi-pass placeholders generated: (text, features)
+        self.cur = []
+        self.nfresh = 0
+
+    def full_tree(self):
+        t = dict(self.tree)
+        t.update(self.extra)
+        return t
+
+    def feat(self, name):
+        self.cur.append(name)
+
+    def fresh(self, stem):
+        self.nfresh += 1
+        return "%s%d" % (stem, self.nfresh)
+
+    def direct(self, kind):
+        """a single-pass placeholder of the kind: (text, text after substitution)"""
+        rng = self.rng
+        cands = [k for k, v in self.tree.items() if self.kind_of(v) == kind]
+        if cands and rng.random() < 0.75:
+            k = rng.choice(cands)
+            return "${%s}" % k, val_text(self.tree[k])
+        d = rng.choice(LIT_DEFAULT[kind])
+        return "${%s:%s}" % (rng.choice(["nope", "zz.k"]), d), d
+
+    def selector(self, kind, level):
+        """a placeholder resolving to the name of one alternative of the kind's group: (group, text, name, hops)"""
+        rng = self.rng
+        grp, sel, alts = GROUPS[kind]
+        self.extra.setdefault(grp, dict(alts))
+        if sel not in self.extra:
+            self.extra[sel] = rng.choice(sorted(alts))
+        r = rng.random()
+        if level <= 0 or r < 0.5:
+            return grp, "${%s}" % sel, self.extra[sel], 0
+        if r < 0.75:                                   # the selector comes from a default
+            name = rng.choice(sorted(alts))
+            return grp, "${no.%s:%s}" % (sel, name), name, 0
+        k = self.fresh("sel")                          # the selector's configured value is a placeholder
+        self.extra[k] = "${%s}" % sel
+        return grp, "${%s}" % k, self.extra[sel], 1
+
+    def deep(self, kind, level):
+        """a multi-pass placeholder of the kind: (text, text after complete substitution, hops of indirection through
+        configured values); level = nesting depth still to add (0: a single-pass placeholder)"""
+        rng = self.rng
+        if level <= 0:
+            t, v = self.direct(kind)
+            return t, v, 0
+        form = rng.choice(["nested", "nested", "indirect", "indirect", "indirect", "default", "default"])
+        if form == "nested":
+            grp, stext, name, hops = self.selector(kind, level - 1)
+            self.feat("nested_key")
+            d = rng.choice(["", "", "", ":9"]) if kind in ("int", "float") else ""
+            return "${%s.%s%s}" % (grp, stext, d), val_text(GROUPS[kind][2][name]), hops
+        if form == "indirect":
+            inner, val, hops = self.deep(kind, level - 1)
+            key = self.fresh("q")
+            pre = suf = sufv = ""
+            r = rng.random()
+            if kind in ("int", "float") and r < 0.25:  # the configured value is a piece of expression text with two placeholders
+                o, ov = self.direct("int")
+                pre, suf, sufv = "(", " + " + o + ")", " + " + ov + ")"
+                self.feat("configured_value_with_text_around")
+            elif kind == "str" and r < 0.35:
+                pre, suf = rng.choice([("", "-x"), ("p ", ""), ("v", "_1")])
+                sufv = suf
+                self.feat("configured_value_with_text_around")
+            self.extra[key] = pre + inner + suf
+            return "${%s}" % key, pre + val + sufv, hops + 1
+        # default
+        inner, val, hops = self.deep(kind, level - 1)
+        self.feat("default_with_placeholder")
+        cands = [k for k, v in self.tree.items() if self.kind_of(v) == kind]
+        if cands and rng.random() < 0.25:              # key present: the (resolved) default is not used
+            k = rng.choice(cands)
+            self.feat("default_with_placeholder_key_present")
+            return "${%s:%s}" % (k, inner), val_text(self.tree[k]), 0
+        return "${%s:%s}" % (rng.choice(["nope", "zz.k", "limits.none"]), inner), val, hops
+
+    def mph(self, kinds, level=None):
+        """one multi-pass placeholder as a piece list, its substituted text"""
+        rng = self.rng
+        kind = rng.choice(list(kinds))
+        if level is None:
+            level = rng.choice([1, 1, 1, 2, 2, 3])
+        self.cur = []
+        text, val, hops = self.deep(kind, level)
+        self.feat("depth_%d" % level)
+        self.feat("kind_" + kind)
+        if hops == 1:
+            self.feat("indirect_1_level")
+        elif hops >= 2:
+            self.feat("indirect_2plus_levels")
+        self.mphs.append((text, self.cur))
+        return [text], val
 
     def ph(self, kinds):
         """a placeholder resolving to a value of one of the kinds ('int','float','bool','str')"""
         rng = self.rng
+        if self.p_deep and rng.random() < self.p_deep:
+            return self.mph(kinds)
         cands = [k for k, v in self.tree.items() if self.kind_of(v) in kinds]
         if cands and rng.random() < 0.7:
             k = rng.choice(cands)
@@ -90,17 +208,18 @@ class G:
             t = rng.choice(["0", "1", "2", "3", "7", "10", "100", "1.5", "0.25", "2.0", "65535"])
             return [t], t
         if r < 0.85:
-            a, at = self.num(depth + 1)
-            b, bt = self.num(depth + 1)
             op = rng.choice([" + ", " - ", " * ", "+", "*", " / ", " % ", " ** "])
-            if op.strip() == "%":
-                b, bt = [rng.choice(["2", "3", "7"])], None
-                bt = b[0]
-                a, at = [rng.choice(["10", "7", "100"])], None
-                at = a[0]
-            if op.strip() == "**":
+            if op.strip() == "%":                      # operands that are not used are not generated (placeholder accounting)
+                b = [rng.choice(["2", "3", "7"])]
+                a = [rng.choice(["10", "7", "100"])]
+                at, bt = a[0], b[0]
+            elif op.strip() == "**":
+                a, at = self.num(depth + 1)
                 b = [rng.choice(["2", "3"])]
                 bt = b[0]
+            else:
+                a, at = self.num(depth + 1)
+                b, bt = self.num(depth + 1)
             return ["("] + a + [op] + b + [")"], "(" + at + op + bt + ")"
         if r < 0.93:
             a, at = self.num(depth + 1)
@@ -151,11 +270,11 @@ class G:
             a, at = self.num(depth + 1)
             lst = rng.choice(["[1, 2, 3]", "[0, 7, 10]", "1..5", "[]"])
             return ["("] + a + [" in " + lst + ")"], "(" + at + " in " + lst + ")"
-        a, at = self.string(depth + 1)
-        b, bt = self.string(depth + 1)
         op = rng.choice([" contains ", " startsWith ", " endsWith ", " == ", " in "])
+        a, at = self.string(depth + 1)
         if op == " in ":
             return ["("] + a + [" in ['a', 'dev', 'abc'])"], "(" + at + " in ['a', 'dev', 'abc'])"
+        b, bt = self.string(depth + 1)
         return ["("] + a + [op] + b + [")"], "(" + at + op + bt + ")"
 
     def any_expr(self):
@@ -182,6 +301,59 @@ class G:
         return [t], t, "odd"
 
 
+    def dependent(self):
+        """an expression whose result is a function of the value of a multi-pass placeholder that is injective on the values the
+        placeholder can take (arithmetic, comparison against the value, conditional on it, string functions of it), so an
+        unresolved or wrongly resolved placeholder changes the outcome: (pieces, substituted text, kind of the result)"""
+        rng = self.rng
+        t = rng.choice(["arith", "arith", "eq_cond", "eq_cond", "cmp", "str_cond", "str_fun", "str_cat", "bool_cond", "not", "in"])
+        if t == "arith":
+            a, at = self.mph(("int",))
+            b, bt = self.mph(("int", "float")) if rng.random() < 0.5 else self.num(2)
+            op = rng.choice([" * 2 + ", " + ", " - ", "*3-"])
+            return a + [op] + b, at + op + bt, "num"
+        if t == "eq_cond":
+            a, at = self.mph(("int", "float") if rng.random() < 0.3 else ("int",))
+            op = rng.choice([" == ", " != ", " >= ", " < "])
+            x, y, kind = rng.choice([("'same'", "'other'", "str"), ("1", "2", "num"), ("'hi'", "'lo'", "str")])
+            tail = op + at + " ? " + x + " : " + y
+            return a + [tail], at + tail, kind
+        if t == "cmp":
+            a, at = self.mph(("int",))
+            b, bt = self.mph(("int",))
+            op = rng.choice([" < ", " <= ", " > ", " >= ", " == ", " != "])
+            return a + [op] + b, at + op + bt, "bool"
+        if t == "str_cond":
+            a, at = self.mph(("str",))
+            tail = "' == '" + at + "' ? 1 : 2"
+            return ["'"] + a + [tail], "'" + at + tail, "num"
+        if t == "str_fun":
+            a, at = self.mph(("str",))
+            f = rng.choice(["len", "upper", "lower"])
+            return [f + "('"] + a + ["')"], f + "('" + at + "')", "num" if f == "len" else "str"
+        if t == "str_cat":
+            a, at = self.mph(("str",))
+            if rng.random() < 0.5:
+                b, bt = self.mph(("str",))
+                return ["'"] + a + ["' + ' ' + '"] + b + ["'"], "'" + at + "' + ' ' + '" + bt + "'", "str"
+            return ["'"] + a + ["' + '!'"], "'" + at + "' + '!'", "str"
+        if t == "bool_cond":
+            c, ct = self.mph(("bool",))
+            a, at = self.mph(("int",))
+            b, bt = self.num(2)
+            return c + [" ? "] + a + [" : "] + b, ct + " ? " + at + " : " + bt, "num"
+        if t == "not":
+            c, ct = self.mph(("bool",))
+            op = rng.choice(["not ", "!"])
+            if rng.random() < 0.5:
+                a, at = self.mph(("int",))
+                return [op] + c + [" or "] + a + [" > 4"], op + ct + " or " + at + " > 4", "bool"
+            return [op] + c, op + ct, "bool"
+        a, at = self.mph(("int",))
+        b, bt = self.mph(("int",))
+        return a + [" in ["] + b + [", 3, 100]"], at + " in [" + bt + ", 3, 100]", "bool"
+
+
 def render_pieces(pieces):
     out = ""
     for p in pieces:
@@ -199,10 +371,35 @@ BOOL_CONS = ["required", "eq=true", "eq=false"]
 LIST_CONS = ["required", "min=2", "max=2", "len=2", "required min=3 max=20", "min=1 dive min=2", "gt=0", "unique"]
 
 
-def gen_expr_case(rng, cid):
+def mp_info(g, text, dependent=False):
+    """what the tag text contains of the class `placeholders that need more than one substitution pass` (None: nothing);
+    counted on the text itself: a placeholder the generator made and then dropped does not count"""
+    used = [(t, fs) for t, fs in g.mphs if t in text]
+    if not used:
+        return None
+    feats = {}
+    for _, fs in used:
+        for f in fs:
+            feats[f] = feats.get(f, 0) + 1
+    return {"n": len(used), "feats": feats, "dependent": dependent}
+
+
+def gen_expr_case(rng, cid, multipass=False):
+    """one #{expr} as the whole value tag.  multipass: a case of the stream `multipass` - at least one placeholder inside the
+    expression needs more than one substitution pass; elsewhere about one placeholder in eight does"""
     tree = {k: v for k, v in SCALARS.items() if rng.random() < 0.8}
-    g = G(rng, tree)
-    pieces, u, kind = g.any_expr()
+    dependent = False
+    if multipass:
+        dependent = rng.random() < 0.45
+        while True:
+            g = G(rng, tree, p_deep=0.7)
+            pieces, u, kind = g.dependent() if dependent else g.any_expr()
+            if mp_info(g, render_pieces(pieces)):
+                break
+    else:
+        g = G(rng, tree, p_deep=0.12)
+        pieces, u, kind = g.any_expr()
+    tree = g.full_tree()
     ftype = {"num": rng.choice(["int", "float", "any", "string", "int", "float"]), "bool": rng.choice(["bool", "any", "string"]),
              "str": rng.choice(["string", "any", "string", "int"]), "odd": rng.choice(["any", "string", "int"])}[kind]
     text = "#{" + render_pieces(pieces) + "}"
@@ -214,23 +411,24 @@ def gen_expr_case(rng, cid):
         text += ",validate=" + cons
     if rng.random() < 0.2:
         text += ",required=false"
-    return {"id": cid, "stream": "expr", "config": P.cfg_json(tree), "tree": tree, "tagkey": "value", "tagtext": hx(text), "ftype": ftype,
-            "constraints": cons, "hasvalidate": hasv, "expr": u}
+    return {"id": cid, "stream": "multipass" if multipass else "expr", "config": P.cfg_json(tree), "tree": tree, "tagkey": "value",
+            "tagtext": hx(text), "ftype": ftype, "constraints": cons, "hasvalidate": hasv, "expr": u, "mp": mp_info(g, text, dependent)}
 
 
 def gen_mixed_case(rng, cid):
     """several expressions / literal text around them: model comparison only"""
     tree = {k: v for k, v in SCALARS.items() if rng.random() < 0.8}
-    g = G(rng, tree)
+    g = G(rng, tree, p_deep=0.2)
     text = ""
     for _ in range(rng.randint(1, 3)):
         text += rng.choice(["", "p", "x ", "n=", "#", "$"])
         pieces, u, kind = g.any_expr()
         text += "#{" + render_pieces(pieces) + "}"
     text += rng.choice(["", "q", " z"])
+    tree = g.full_tree()
     return {"id": cid, "stream": "mixed", "config": P.cfg_json(tree), "tree": tree, "tagkey": "value",
             "tagtext": hx(text + rng.choice(["", ",required=false"])), "ftype": rng.choice(["string", "any"]), "constraints": "",
-            "hasvalidate": False, "expr": None}
+            "hasvalidate": False, "expr": None, "mp": mp_info(g, text)}
 
 
 def gen_validate_case(rng, cid):
@@ -305,12 +503,24 @@ def gen_validate_case(rng, cid):
             "ftype": ftype, "constraints": cons if hasv else "", "hasvalidate": hasv, "expr": None, "scalar": scalar}
 
 
+def retuple(v):
+    """a tree read back from a replay file: JSON turned the float values ("dec", m, e) into lists"""
+    if isinstance(v, list):
+        if len(v) == 3 and v[0] == "dec":
+            return tuple(v)
+        return [retuple(x) for x in v]
+    if isinstance(v, dict):
+        return {k: retuple(x) for k, x in v.items()}
+    return v
+
+
 def corpus():
     cs = []
 
-    def add(tree, tagkey, text, ftype, cons="", hasv=False, expr=None, stream="corpus"):
+    def add(tree, tagkey, text, ftype, cons="", hasv=False, expr=None, stream="corpus", mp=None):
         cs.append({"stream": stream, "config": P.cfg_json(tree), "tree": tree, "tagkey": tagkey, "tagtext": hx(text), "ftype": ftype,
-                   "constraints": cons, "hasvalidate": hasv, "expr": expr})
+                   "constraints": cons, "hasvalidate": hasv, "expr": expr,
+                   "mp": {"n": mp[0], "feats": {f: 1 for f in mp[1:]}, "dependent": True} if mp else None})
 
     # fixtures of /repo/unittest/configure (expression_tag_test.go, validate_test.go)
     add({"a": 2}, "value", "#{${a}+${b:1}}", "int", expr="2+1")
@@ -335,6 +545,18 @@ def corpus():
     # a float64 of large magnitude through the ${} stage (1e+06 before the repair D-C17g, 1000000 after it), alone and inside an expression
     add({"a": P.norm_dec(1, 6)}, "value", "${a}", "string")
     add({"a": P.norm_dec(1, 6), "c": P.norm_dec(1, -5)}, "value", "#{${a}+${c}}", "float")
+    # placeholders inside an expression that need more than one substitution pass (fixed witnesses of the class gen_expr_case(multipass=True)
+    # draws from): key built from a placeholder, configured value that is a placeholder (one hop, two hops), default that is a placeholder
+    lim = {"tier": "gold", "limits": {"silver": 3, "gold": 5}, "base": 10, "quota": "${base}", "q2": "${quota}", "lang": "en",
+           "greeting": {"en": "hello"}}
+    add(lim, "value", "#{${limits.${tier}}*2}", "int", expr="5*2", mp=(1, "nested_key"))
+    add(lim, "value", "#{'${greeting.${lang}}' + ' ' + 'world'}", "string", expr="'hello' + ' ' + 'world'", mp=(1, "nested_key"))
+    add(lim, "value", "#{${limits.${tier}} > ${limits.silver}}", "bool", expr="5 > 3", mp=(1, "nested_key"))
+    add(lim, "value", "#{${quota}+1}", "int", expr="10+1", mp=(1, "indirect_1_level"))
+    add(lim, "value", "#{${q2} - ${quota}}", "int", expr="10 - 10", mp=(2, "indirect_1_level", "indirect_2plus_levels"))
+    add(lim, "value", "#{${nope:${base}} / 4}", "float", expr="10 / 4", mp=(1, "default_with_placeholder"))
+    add(lim, "value", "#{${limits.${nope:${tier}}} == 5 ? 'g' : 's'}", "string", expr="5 == 5 ? 'g' : 's'",
+        mp=(1, "nested_key", "default_with_placeholder"))
     return cs + P.corpus_files("C18")
 
 
@@ -479,12 +701,14 @@ def run(ctx):
         r = json.load(open(ctx.replay))
         rc = r.get("case", {}).get("case")
         if rc:
-            cases = [dict(rc, id=1)]
+            cases = [dict(rc, id=1, tree=retuple(rc.get("tree")))]
     else:
-        n_expr, n_mixed, n_val = (900, 200, 800) if ctx.quick() else (8000, 2000, 6000)
+        n_expr, n_mp, n_mixed, n_val = (900, 600, 200, 800) if ctx.quick() else (8000, 5000, 2000, 6000)
         cid = len(cases) + 1
         for _ in range(n_expr):
             cases.append(gen_expr_case(rng, cid)); cid += 1
+        for _ in range(n_mp):
+            cases.append(gen_expr_case(rng, cid, multipass=True)); cid += 1
         for _ in range(n_mixed):
             cases.append(gen_mixed_case(rng, cid)); cid += 1
         for _ in range(n_val):
@@ -520,6 +744,8 @@ def run(ctx):
                 more.append(gen_expr_case(r2, i))
             for i in range(401, 801):
                 more.append(gen_validate_case(r2, i))
+            for i in range(801, 1201):
+                more.append(gen_expr_case(r2, i, multipass=True))
             b2, M2, V2, _, _ = evaluate(ctx, binp, more, "widen%d" % extra)
             for i in V2:
                 if not (b2[i].get("kf_class") and i not in M2):
@@ -529,28 +755,50 @@ def run(ctx):
         return found[:3]
 
     streams, outcomes = {}, {}
+    # the class `placeholders inside #{} that need more than one substitution pass`: cases and placeholders per feature
+    mp = {"cases": 0, "cases_by_stream": {}, "placeholders": 0, "cases_with_several": 0, "cases_result_depends_on_inner_value": 0,
+          "cases_by_feature": {}, "cases_by_outcome": {}, "cases_by_field_type": {}}
     for c in cases:
         k = c.get("stream", "") + ":" + c["tagkey"] + ":" + c["ftype"]
         streams[k] = streams.get(k, 0) + 1
+        m = c.get("mp")
+        if m:
+            mp["cases"] += 1
+            mp["placeholders"] += m["n"]
+            mp["cases_with_several"] += 1 if m["n"] >= 2 else 0
+            mp["cases_result_depends_on_inner_value"] += 1 if m.get("dependent") else 0
+            for f in m["feats"]:
+                mp["cases_by_feature"][f] = mp["cases_by_feature"].get(f, 0) + 1
+            oc = by_id.get(c["id"], {}).get("observed", {}).get("outcome")
+            for key, val in (("cases_by_stream", c.get("stream", "")), ("cases_by_outcome", oc), ("cases_by_field_type", c["ftype"])):
+                mp[key][val] = mp[key].get(val, 0) + 1
+    mp["distinct_cases"] = len({vlib.stable_hash([c["config"], c["tagtext"], c["ftype"]]) for c in cases if c.get("mp")})
+    ctx.log("multi-pass placeholder class: %d cases (%d distinct, %d placeholders, %d with several, %d result-dependent) %s" % (
+        mp["cases"], mp["distinct_cases"], mp["placeholders"], mp["cases_with_several"], mp["cases_result_depends_on_inner_value"],
+        json.dumps(mp["cases_by_feature"], sort_keys=True)))
     for d in by_id.values():
         oc = d["observed"].get("outcome")
         outcomes[oc] = outcomes.get(oc, 0) + 1
     distinct = len({vlib.stable_hash([c["config"], c["tagkey"], c["tagtext"], c["ftype"]]) for c in cases
                     if (c.get("expr") is not None and "${" in unhx(c["tagtext"]).decode("latin1")) or c.get("stream") == "validate"})
     samples = [by_id[i] for i in sorted(by_id) if by_id[i]["case"].get("stream") == "expr"][:2]
+    samples += [by_id[i] for i in sorted(by_id) if by_id[i]["case"].get("stream") == "multipass"][:3]
     samples += [by_id[i] for i in sorted(by_id) if by_id[i]["case"].get("stream") == "validate"][:2]
     cov = {
         "evaluations": cnt["evals"],
         "distinct_nontrivial": min(cnt["nt"], distinct),
         "rule": "real App.Run starts: (a) value tags `#{expr}` with generated arithmetic / boolean / string / conditional / membership "
                 "expressions over literals and ${} placeholders (present keys, absent keys with defaults), field types any/string/int/"
-                "float64/bool, optionally a validate argument; (b) mixed texts with several expressions; (c) value x constraint pairs for "
+                "float64/bool, optionally a validate argument; (a') the same with placeholders that need more than one substitution "
+                "pass (stream multipass, and about one placeholder in eight of the other streams): keys built from placeholders "
+                "${limits.${tier}}, configured values that contain placeholders (one, two and more hops, with text around), defaults "
+                "that contain placeholders, several per expression, and expressions that are injective in the inner value; (b) mixed texts with several expressions; (c) value x constraint pairs for "
                 "validate on scalars, pointers, slices, maps and (nested) structs, bound from literals and through prefix; boundaries; "
                 "unbound fields. non-trivial = (a) with at least one placeholder inside the expression, or a case with a validate "
                 "argument whose binding stage was reached; distinct = distinct (configuration, tag, field type)",
         "samples": samples,
         "traces_validated_against_impl": len(cases),
-        "input_distribution": {"streams": streams, "outcomes": outcomes},
+        "input_distribution": {"streams": streams, "outcomes": outcomes, "multipass_placeholders": mp},
         "nontrivial_cases": cnt["nt"],
         "validate_failures_observed": cnt["vf"],
         "cases_outside_modelled_fragment": cnt["outside"],
